@@ -36,6 +36,16 @@ pub fn judge(scn: &Scn, o: &Outcome) -> Verdict {
         v.undetermined = Some("aborted".into());
         return v;
     }
+    if let Stop::Panicked(msg) = &o.stop {
+        // the stack itself panicked under a legitimate workload
+        let loc = msg.rsplit(" @ ").next().unwrap_or("").rsplit('/').next().unwrap_or("").to_string();
+        v.complaints.push(Complaint {
+            class: "panic".into(),
+            kind: loc,
+            detail: format!("turmoil-net panicked in round {}: {msg}", o.rounds),
+        });
+        return v;
+    }
     // ---- safety: always ---------------------------------------------------
     for (class, detail) in &o.hist.complaints {
         if SAFETY_CLASSES.contains(&class.as_str()) {
@@ -148,6 +158,15 @@ pub fn judge(scn: &Scn, o: &Outcome) -> Verdict {
 
 pub fn signature(prop: &str, c: &Complaint, scn: &Scn) -> String {
     format!("{prop}|{}|{}|{}", c.class, c.kind, scn.canon())
+}
+
+/// Minimisation is expensive on a badly broken tree (every scenario fails):
+/// only the first few complaints of a process are minimised, the rest are
+/// reported with their full schedules.
+pub fn minimise_ticket() -> bool {
+    use std::sync::atomic::{AtomicUsize, Ordering};
+    static USED: AtomicUsize = AtomicUsize::new(0);
+    USED.fetch_add(1, Ordering::Relaxed) < 12
 }
 
 /// Does `scn` (explicit schedule) still produce a complaint of `class`?
